@@ -25,14 +25,15 @@ func NewBuilder(n int32) *Builder {
 //
 // Since 0.1.19
 func (b *Builder) Extend(bitPositions []int32, size int32) {
-	end := b.Offset + size
+	// int64: Offset + last position + 1 is 1<<31 for the last position an int32 can hold
+	end := int64(b.Offset) + int64(size)
 	if len(bitPositions) > 0 {
 		bitEnd := bitPositions[len(bitPositions)-1]
 		if bitEnd >= size {
-			end = b.Offset + bitEnd + 1
+			end = int64(b.Offset) + int64(bitEnd) + 1
 		}
 	}
-	for int(end) > len(b.Words)<<6 {
+	for end > int64(len(b.Words))<<6 {
 		b.Words = append(b.Words, 0)
 	}
 
